@@ -1086,28 +1086,52 @@ pub struct SnippetInserter {
     pub marker: usize,
     pub hits: usize,
     pub done: bool,
+    /// which innermost match (source order) receives the marker; None = the only one
+    pub nth: Option<usize>,
+}
+impl SnippetInserter {
+    fn nested_has(&self, s: &Stmt) -> bool {
+        struct Inner<'a> { snip: &'a str, found: bool }
+        impl<'a, 'ast> syn::visit::Visit<'ast> for Inner<'a> {
+            fn visit_block(&mut self, b: &'ast Block) {
+                if b.stmts.iter().any(|s| norm(&s.to_token_stream().to_string()).contains(self.snip)) { self.found = true; }
+                syn::visit::visit_block(self, b);
+            }
+        }
+        let mut inner = Inner { snip: &self.snippet, found: false };
+        syn::visit::visit_stmt(&mut inner, s);
+        inner.found
+    }
 }
 impl VisitMut for SnippetInserter {
     fn visit_block_mut(&mut self, b: &mut Block) {
-        visit_mut::visit_block_mut(self, b);
-        if self.done {
-            return;
-        }
-        let mut found: Vec<usize> = Vec::new();
-        for (i, s) in b.stmts.iter().enumerate() {
-            let txt = norm(&s.to_token_stream().to_string());
-            if txt.contains(&self.snippet) {
-                found.push(i);
+        let mut at: Option<usize> = None;
+        for i in 0..b.stmts.len() {
+            if self.done {
+                break;
+            }
+            let txt = norm(&b.stmts[i].to_token_stream().to_string());
+            if !txt.contains(&self.snippet) {
+                continue;
+            }
+            if self.nested_has(&b.stmts[i]) {
+                let mut st = b.stmts[i].clone();
+                visit_mut::visit_stmt_mut(self, &mut st);
+                b.stmts[i] = st;
+            } else {
+                let k = self.hits;
+                self.hits += 1;
+                if self.nth.map(|n| n == k).unwrap_or(true) && at.is_none() && !self.done {
+                    at = Some(i);
+                    if self.nth.is_some() {
+                        self.done = true;
+                    }
+                }
             }
         }
-        if !found.is_empty() {
-            self.hits += found.len();
-            self.done = true;
-            let i = found[0];
+        if let Some(i) = at {
             let lit = proc_macro2::Literal::usize_unsuffixed(self.marker);
             let m: Stmt = parse_quote!(__vx_insert!(#lit););
-            let at = if self.after { i + 1 } else { i };
-            // inserting after a trailing expression would change the block's value: refuse
             if self.after {
                 // an `if` without `else` and the loop forms have type (): a `;` can be added safely
                 if let Stmt::Expr(e, semi @ None) = &mut b.stmts[i] {
@@ -1127,7 +1151,7 @@ impl VisitMut for SnippetInserter {
                     ));
                 }
             }
-            b.stmts.insert(at, m);
+            b.stmts.insert(if self.after { i + 1 } else { i }, m);
         }
     }
 }
